@@ -55,6 +55,7 @@ def build():
     U.extract(C.CE, 'impl From<SyntaxError> for CelError', fns={'from': A(ret='r', ensures=[('def', 'r == CelError::Syntax(value)')], props=('C01',))})
     U.extract(S.PR, 'impl From<ByteCode> for PreResolvedCodePoint', fns={'from': A(ret='r', ensures=[('def', 'r == PreResolvedCodePoint::Bytecode(value)')], props=('C10', 'C01'))})
     U.extract(S.PR, 'impl PreResolvedByteCode', fns={}, others='stub')
+    S.grammar_ambient(U)
     U.extract('rscel/src/program/program_details.rs', 'impl ProgramDetails', fns=dict(S.stubbed(S.DETAILS), add_ast=A(stub=True, ensures=[('keeps_identifiers_sets_the_tree', 'final(self)@ == old(self)@ && final(self).tree_of() == Some(ast)')])))
     cp = S.stubbed(S.compprog_contracts())
     cp['into_program'] = A(stub=True, ret='r', ensures=[('resolved_code_identifiers_and_no_tree_yet', 'r.code() == resolved(code_of(node_view(self.inner))) && r.params() == self.details@')])
@@ -78,6 +79,6 @@ def build():
                                ('self.tokenizer.peek()?))', 'this.tokenizer.peek()?))', 'R4'),
                                ('self.tokenizer.source().to_owned()', 'this.tokenizer.source().to_owned()', 'R4')],
                      props=('C02', 'C18', 'C17', 'C10', 'C01')),
-    })
+    }, others='stub', skip=('with_tokenizer',))
     U.raw(C.FOOTER, 'footer')
     return U
